@@ -13,6 +13,7 @@ THEOREMS = {
     "C11": ("TrVerif.Props.C11", ["Tr.C11_connSet", "Tr.C11_restrict", "Tr.C11_answers", "Tr.C11_route"]),
     "C13": ("TrVerif.Props.C13", ["Tr.C13_history_independent", "Tr.C13_cache_kind_irrelevant", "Tr.C13_structure"]),
     "C14": ("TrVerif.Props.C14", ["Tr.C14_interleavings", "Tr.C14_progress", "Tr.C14_structure"]),
+    "C15": ("TrVerif.Props.C15", ["Tr.C15_answers", "Tr.C15_all", "Tr.C15_schedules", "Tr.C15_old_state_irrelevant", "Tr.C15_status", "Tr.C15_structure", "Tr.C15_order"]),
     "C18": ("TrVerif.Props.C18", ["Tr.C18_index_safe", "Tr.C18_forward_guard", "Tr.C18_codes_documented", "Tr.C18_codes_specific", "Tr.C18_defaults", "Tr.C18_update_names"]),
     "C19": ("TrVerif.Props.C19", ["Tr.C19_summary", "Tr.C19_handlers_mirror"]),
 }
